@@ -1,2 +1,101 @@
-"""property-specific check routines that do not use the pool-history explorer (filled in as they are built)."""
-SPECIAL = {}
+"""property-specific check routines that do not (only) use the pool-history explorer."""
+import os, sys, json, time, re, random
+import lsv
+
+INT_TYPES = {'i8': (-2**7, 2**7 - 1), 'u8': (0, 2**8 - 1), 'i16': (-2**15, 2**15 - 1), 'u16': (0, 2**16 - 1),
+             'i32': (-2**31, 2**31 - 1), 'u32': (0, 2**32 - 1), 'i64': (-2**63, 2**63 - 1), 'u64': (0, 2**64 - 1),
+             'isize': (-2**63, 2**63 - 1), 'usize': (0, 2**64 - 1), 'i128': (-2**127, 2**127 - 1), 'u128': (0, 2**128 - 1)}
+
+class Sm:
+    def __init__(self, seed): self.s = seed & (2**64 - 1)
+    def next(self):
+        self.s = (self.s + 0x9E3779B97F4A7C15) & (2**64 - 1)
+        z = self.s
+        z = ((z ^ (z >> 30)) * 0xBF58476D1CE4E5B9) & (2**64 - 1)
+        z = ((z ^ (z >> 27)) * 0x94D049BB133111EB) & (2**64 - 1)
+        return z ^ (z >> 31)
+
+def int_values(ty, rng, nrand):
+    lo, hi = INT_TYPES[ty]
+    vals = set([lo, hi, lo + 1, hi - 1, 0, 1, 2, 9, 10, 11])
+    for k in range(0, 40):
+        for d in (-3, -2, -1, 0, 1, 2, 3):
+            for sgn in (1, -1):
+                vals.add(sgn * (10 ** k) + d); vals.add(sgn * (10 ** k - 1) + d)
+    for k in range(0, 129):
+        for d in (-3, -2, -1, 0, 1, 2, 3):
+            for sgn in (1, -1):
+                vals.add(sgn * (2 ** k) + d)
+    # dense random sampling of every digit count
+    maxd = len(str(max(abs(lo), hi)))
+    for dcount in range(1, maxd + 1):
+        for _ in range(nrand):
+            v = (rng.next() | (rng.next() << 64)) % (10 ** dcount - 10 ** (dcount - 1) + 1) + 10 ** (dcount - 1) - (1 if dcount == 1 else 0)
+            vals.add(v); vals.add(-v)
+    return sorted(v for v in vals if lo <= v <= hi)
+
+def int_cases(seed, nrand):
+    rng = Sm(seed * 7919 + 13)
+    lines = []
+    cid = 0
+    nvals = 0
+    for ty in INT_TYPES:
+        vs = int_values(ty, rng, nrand)
+        nvals += len(vs)
+        for variant in (ty, 'nz_' + ty):
+            vv = [v for v in vs if not (variant.startswith('nz_') and v == 0)]
+            for i in range(0, len(vv), 6):
+                lines.append('case int%d' % cid); cid += 1
+                lines.append('limit 65536')
+                for v in vv[i:i + 6]:
+                    lines.append('op %s from_int %s %d' % ('try' if (v & 1) else 'plain', variant, v))
+                lines.append('end')
+    return '\n'.join(lines) + '\n', nvals
+
+def run_sweep(root, args, timeout):
+    rn = os.path.join(root, '.cache', 'harness-target', 'release', 'sweep')
+    rc, out = lsv.sh([rn] + [str(a) for a in args], timeout)
+    m = re.search(r'checked (\d+) mismatches (\d+)', out)
+    mism = [l for l in out.splitlines() if l.startswith('MISMATCH')]
+    return (int(m.group(1)) if m else 0), (int(m.group(2)) if m else -1), mism, out
+
+def check_c14(root, pid, tier, seed, replay):
+    res = lsv.Result(pid, tier, seed)
+    st = lsv.Build(root).run()
+    lsv.base_obligations(root, pid, res, st)
+    stats = lsv.new_stats()
+    if replay:
+        lsv.explore(root, pid, res, open(replay).read(), 'replay', stats)
+    else:
+        txt, nvals = int_cases(seed, 8 if tier == 'quick' else 120)
+        lsv.explore(root, pid, res, txt, 'ints_s%d' % seed, stats)
+        res.cov['int_values_through_model_and_impl'] = nvals
+        # sweeps on the implementation alone (monitor: to_lean_string() == to_string())
+        plan = [('i8', -128, 256, 1), ('u8', 0, 256, 1), ('i16', -32768, 65536, 1), ('u16', 0, 65536, 1)]
+        if tier == 'thorough':
+            plan += [('i32', -2**31, 2**32, 1), ('u32', 0, 2**32, 1)]
+            plan += [('i64', -2**63, 50_000_000, 368934881474191), ('u64', 0, 50_000_000, 368934881474191),
+                     ('isize', -2**63, 20_000_000, 922337203685477), ('usize', 0, 20_000_000, 922337203685477),
+                     ('i128', -2**127, 20_000_000, 17014118346046923173168730371588410), ('u128', 0, 20_000_000, 17014118346046923173168730371588410)]
+        else:
+            plan += [('i32', -2**31, 2**16 + 1, 65521), ('u32', 0, 2**16 + 1, 65521),
+                     ('i64', -2**63, 200_000, 92233720368547758 + seed), ('u64', 0, 200_000, 92233720368547758 + seed),
+                     ('i128', -2**127, 100_000, 3402823669209384634633746074317682 + seed), ('u128', 0, 100_000, 3402823669209384634633746074317682 + seed)]
+        sweeps = []
+        for ty, start, count, step in plan:
+            n, mm, lines, out = run_sweep(root, ['int', ty, start, count, step], 3000)
+            sweeps.append({'type': ty, 'start': str(start), 'count': count, 'step': str(step), 'checked': n, 'mismatches': mm})
+            stats['steps'] += n
+            if mm != 0:
+                stats['monitor_failures'] += 1
+                v = lines[0].split()[2] if lines else '0'
+                case = 'case sweep_%s\nop plain from_int %s %s\nend\n' % (ty, ty, v)
+                rp = lsv.write_replay(root, pid, 'sweep_%s' % ty, case)
+                res.violations.append(('sweep %s: %s' % (ty, lines[0] if lines else out[-200:]), rp, bool(lines), 'text_mismatch'))
+        res.cov['sweeps'] = sweeps
+        res.cov['exhaustive_types'] = [s['type'] for s in sweeps if s['step'] == '1']
+    lsv.finish_without_search(root, pid, res, stats)
+    res.stats = stats
+    return lsv.emit(root, res, st)
+
+SPECIAL = {'C14': check_c14}
